@@ -91,15 +91,15 @@ Definition chan_step_u (st : state chan_state) (t : tid) (o : chan_op) (k : kont
     end.
 
 (* ---- buffered ---- *)
-Fixpoint b_phase (fuel : nat) (mcap : Z) (b : bst) (t : tid) : bst * bool :=
+Fixpoint b_phase (fuel : nat) (fx : bool) (mcap : Z) (b : bst) (t : tid) : bst * bool :=
   match fuel with
   | O => (b, false)
   | S f =>
       match b_pc b t, b_prog b t with
       | BIdle, [] => (b, true)
-      | _, _ => match bstep mcap b t with
+      | _, _ => match bstep fx mcap b t with
                 | None => (b, false)
-                | Some b' => b_phase f mcap b' t
+                | Some b' => b_phase f fx mcap b' t
                 end
       end
   end.
@@ -123,7 +123,7 @@ Definition chan_step_b (st : state chan_state) (t : tid) (o : chan_op) (k : kont
     | _ => let '(st', r, _) := set_error_number st t in
            (st', set_b_w b0 (upd (b_w b0) t (Woken (r =? 0))))
     end in
-  let '(b2, fin) := b_phase 200 (cs_cap cs) b1 t in
+  let '(b2, fin) := b_phase 200 (cs_fx cs) (cs_cap cs) b1 t in
   let st2 := wake_all_core (set_user st1 (mkCS (cs_cap cs) (cs_fx cs) (cs_u cs) (set_b_wk b2 []))) (b_wk b2) in
   if fin then
     match b_log b2 with
